@@ -113,11 +113,14 @@ PROPS = {
                  'packed little-endian image of LinuxDirent64 (generated from the struct text); bytes_to_cstr contract; HandleMap cookie table as a ghost map; R23 ghost token'],
     ),
     'C12': dict(
-        vx_units=['server', 'vfs', 'ptinit', 'vfsmount', 'ovlinit', 'ovl_ops'], kx=[], rx=['init'],
+        vx_units=['server', 'vfs', 'ptinit', 'vfsmount', 'ovlinit', 'ovl_ops', 'ptops'], kx=[], rx=['init'],
+        # the use sites of PassthroughFs's behaviour switches are pinned by C05 clauses of unit ptops (the host call each request makes depends on the NEGOTIATED switch
+        # `X.cur()`, never on the configuration): a failure of one of these counts for C12 as well
+        alias=[r'^C05\.open\.wbflags', r'^C05\.(open|flush)\.no_open', r'^C05\.opendir\.no_opendir', r'^C05\.\w+\.killpriv', r'^C05\.get_(dir)?data\.'],
         design_ref='DESIGN.md section 5, C12',
         not_covered=[
             'Vfs::destroy and backends mounted AFTER init (Vfs::mount_with_id_mapping initialises them; mount path not covered)',
-            'for PassthroughFs::init / OverlayFs::init the converse (feature negotiated => switch IS stored); the effect of the switches on later requests except the writeback rewriting of the open flags in OverlayFs::open / create (D21); a second INIT after DESTROY on a passthrough / overlay instance (switches are only ever turned on)',
+            'for PassthroughFs::init / OverlayFs::init the converse (feature negotiated => switch IS stored); the effect of the switches on later requests beyond: PassthroughFs (unit ptops: writeback flag rewriting, ENOSYS for open/opendir/flush, the descriptor used in no_open / no_opendir mode, CAP_FSETID dropping for kill-priv - all as functions of the negotiated switch) and the writeback rewriting of the open flags in OverlayFs::open / create (D21); per-file DAX attribute flags; a second INIT after DESTROY on a passthrough / overlay instance (switches are only ever turned on)',
             'that the negotiated version IS stored (obligation to act); only that nothing but the client\'s (major, minor) may be stored',
             'fields of the INIT reply the property does not constrain (max_background, congestion_threshold, time_gran, minor)',
         ],
